@@ -132,6 +132,9 @@ func (ec *EngCase) body(c *Case) func(b *harness.BodyCtx) {
 					}
 				}
 			}
+			if b.Sim.Draining() {
+				return // released by the teardown of a stuck run
+			}
 			ec.runs = append(ec.runs, r)
 		}
 		// the same text prepared and executed directly
@@ -153,6 +156,9 @@ func (ec *EngCase) body(c *Case) func(b *harness.BodyCtx) {
 			if err != nil {
 				direct.err = err.Error()
 			}
+		}
+		if b.Sim.Draining() {
+			return
 		}
 		ec.runs = append(ec.runs, direct)
 	}
